@@ -379,6 +379,30 @@ fn oracle_compiled_inner(c: &MpcCase) -> Outcome {
             );
         }
     }
+    if aborts == 2 {
+        // the abort is documented as a negligible-probability event of one run: if the same join
+        // on the same tables also aborts under six further independent evaluator seeds, it is not
+        // that event (8 aborts in a row have probability negligible^8)
+        let mut all = true;
+        for k in 0..6u8 {
+            let mut seed = c.seeds[0];
+            seed[1] ^= 0xA5;
+            seed[2] = seed[2].wrapping_add(k.wrapping_mul(37));
+            match eval_compiled(&p.compiled_main, inputs.clone(), seed) {
+                Ok(Err(e)) if is_cuckoo_abort(&e) => {}
+                _ => {
+                    all = false;
+                    break;
+                }
+            }
+        }
+        if all {
+            return Outcome::fail(
+                "compiled-cuckoo-abort-persistent",
+                format!("compiled {} join aborts with 'Cuckoo hashing failed' under 8 of 8 independent evaluator seeds (documented as a negligible-probability event)", jt_name(c.j.jt)),
+            );
+        }
+    }
     if let Some(f) = p.order_failure(c) {
         return f;
     }
